@@ -4,9 +4,11 @@
 id=$1; shift
 S=/verif/seeded/$id
 mkdir -p $S
-if [ -d /tmp/wt_$id ]; then
-  git -C /tmp/wt_$id diff -- beyond > $S/patch.diff
-  cp /tmp/wt_$id/demo.py /tmp/wt_$id/meta.json $S/
+WT=/tmp/wt_$id
+case $id in *-2) WT=/tmp/wt2_${id%-2};; esac
+if [ -d $WT ]; then
+  git -C $WT diff -- beyond > $S/patch.diff
+  cp $WT/demo.py $WT/meta.json $S/
 fi
 test -z "$(git -C /repo status --short)" || { echo "/repo not clean"; exit 2; }
 (cd /repo; PYTHONPATH=/repo /venv/bin/python $S/demo.py >/dev/null 2>&1; echo "demo clean exit=$?")
